@@ -155,8 +155,107 @@ fn random_case(rng: &mut Rng, len: usize, sh: &mut Shard) {
     sh.put("inflights", &input, &out);
 }
 
+/// Independent oracle for C18 (search / adjudication only): a VecDeque-based bounded FIFO.
+struct Oracle { q: std::collections::VecDeque<u64>, cap: u64, pending: Option<u64> }
+
+impl Oracle {
+    fn full(&self) -> bool {
+        self.q.len() as u64 == self.cap || self.pending.map_or(false, |c| self.q.len() as u64 >= c)
+    }
+    fn settle(&mut self) {
+        if self.q.is_empty() { if let Some(c) = self.pending.take() { self.cap = c; } }
+    }
+    fn step(&mut self, op: Op) {
+        match op {
+            Op::Add(x) => self.q.push_back(x),
+            Op::FreeTo(t) => { while self.q.front().map_or(false, |b| *b <= t) { self.q.pop_front(); } self.settle() }
+            Op::FreeFirst => { if let Some(b) = self.q.front().cloned() { while self.q.front().map_or(false, |x| *x <= b) { self.q.pop_front(); } } self.settle() }
+            Op::Reset => { self.q.clear(); if let Some(c) = self.pending.take() { self.cap = c; } }
+            Op::SetCap(c) => {
+                if c == self.cap { self.pending = None }
+                else if c > self.cap { self.cap = c; self.pending = None }
+                else if self.q.is_empty() { self.cap = c; self.pending = None }
+                else { self.pending = Some(c) }
+            }
+            Op::MaybeFree => {}
+        }
+    }
+}
+
+/// The window's logical content, read off the Debug dump by walking the ring.
+fn logical(s: &Inflights) -> Vec<u64> {
+    let mut d = vec![];
+    dump(s, &mut d);
+    let (start, count, cap) = (d[0] as usize, d[1] as usize, d[2] as usize);
+    let off = if d[3] == 0 { 4 } else { 5 };
+    let buf = &d[off + 3..];
+    (0..count).map(|k| { let mut i = start + k; if cap > 0 && i >= cap { i -= cap; } buf.get(i).cloned().unwrap_or(u64::MAX) }).collect()
+}
+
+fn decode_case(line: &str) -> Option<(u64, Vec<Op>)> {
+    let t: Vec<&str> = line.split_whitespace().collect();
+    if t.len() < 3 || t[0] != "inflights" { return None; }
+    let nums: Vec<u64> = t[1..].iter().map(|x| x.parse().unwrap()).collect();
+    let cap0 = nums[1];
+    let mut ops = vec![];
+    let mut i = 2;
+    while i + 1 < nums.len() {
+        let a = nums[i + 1];
+        ops.push(match nums[i] { 0 => Op::Add(a), 1 => Op::FreeTo(a), 2 => Op::FreeFirst, 3 => Op::Reset, 4 => Op::SetCap(a), _ => Op::MaybeFree });
+        i += 2;
+    }
+    Some((cap0, ops))
+}
+
+/// Runs one case against the oracle; Some(reason) when the property fails on the implementation.
+fn monitor_case(cap0: u64, ops: &[Op]) -> Option<String> {
+    let mut s = Inflights::new(cap0 as usize);
+    let mut o = Oracle { q: Default::default(), cap: cap0, pending: None };
+    for (k, op) in ops.iter().enumerate() {
+        let was_full = o.full();
+        let r = apply(&mut s, *op);
+        match (*op, r) {
+            (Op::Add(_), Err(_)) if was_full => return None, // documented panic; history ends
+            (Op::Add(_), Ok(())) if was_full => return Some(format!("op {}: add succeeded on a full window", k)),
+            (_, Err(site)) => return Some(format!("op {} {:?}: unexpected panic (site {})", k, op, site)),
+            _ => {}
+        }
+        o.step(*op);
+        if s.count() as u64 != o.q.len() as u64 { return Some(format!("op {} {:?}: count {} but FIFO model has {}", k, op, s.count(), o.q.len())); }
+        if s.full() != o.full() { return Some(format!("op {} {:?}: full()={} but FIFO model says {}", k, op, s.full(), o.full())); }
+        let l = logical(&s);
+        if l != o.q.iter().cloned().collect::<Vec<_>>() { return Some(format!("op {} {:?}: window holds {:?} but FIFO model holds {:?}", k, op, l, o.q)); }
+    }
+    None
+}
+
+fn monitor(args: &[String]) {
+    let files = arg(args, "--cases", "");
+    let mut n = 0u64;
+    for f in files.split(',').filter(|x| !x.is_empty()) {
+        let text = std::fs::read_to_string(f).unwrap();
+        for line in text.lines() {
+            if let Some((cap0, ops)) = decode_case(line) {
+                n += 1;
+                if let Some(reason) = monitor_case(cap0, &ops) {
+                    // shrink: shortest failing prefix
+                    let mut best = ops.clone();
+                    for k in 1..=ops.len() { if monitor_case(cap0, &ops[..k]).is_some() { best = ops[..k].to_vec(); break; } }
+                    let mut input = vec![1, cap0];
+                    for o in &best { o.enc(&mut input); }
+                    println!("FAIL inflights {}", input.iter().map(|x| x.to_string()).collect::<Vec<_>>().join(" "));
+                    println!("REASON {}", monitor_case(cap0, &best).unwrap_or(reason));
+                    return;
+                }
+            }
+        }
+    }
+    println!("MONITOR-OK cases={}", n);
+}
+
 pub fn main(args: &[String]) {
     let mode = arg(args, "--mode", "exhaustive");
+    if mode == "monitor" { return monitor(args); }
     let dir = arg(args, "--out", "/verif/build/run");
     let nsh: usize = arg(args, "--shards", "16").parse().unwrap();
     let seed: u64 = arg(args, "--seed", "1").parse().unwrap();
